@@ -1,7 +1,7 @@
 """C01 / VMDK: ties the whole-buffer SPECIFICATION `vmdk_spec` (coq/Model/C01_Vmdk.v) and the two Coq
 zone predicates to the implementation.  Meant to be wired into tools/props/C01.py:
 
-    import C01_vmdk_spec
+    from props import C01_vmdk_spec
     def extra_checks(rng, tier): yield from C01_vmdk_spec.extra_checks(rng, tier)
 
 For every generated VMDK case (the plugin's own generators + targeted boundary cases below):
@@ -11,11 +11,26 @@ For every generated VMDK case (the plugin's own generators + targeted boundary c
     (exception of the chunk that raised, format_match, complete, virtual_size, safety) must equal
     `vmdk_spec data` as computed by the extracted Coq function.
 A failing case carries fmt='vmdk', so the plugin's zone() classifies it when it lies in F1/F3.
+
+NOTE for the integrator: a `vmdk_spec` message says "the code no longer computes vmdk_spec" -- that is the tie between the
+Coq SPEC and the code (a correspondence-type statement), which is MORE than C01's text (chunking independence) demands: an
+edit that changes the verdict function consistently for all chunkings is reported here although C01 still holds for it.
+Wire `extra_checks` if such a disagreement should count as a violation with its input; use `spec_disagreements` (same
+triples, only the failing ones) if it should be treated like a correspondence disagreement instead.
+The two Coq witnesses of C01_refuted_vmdk_text / C01_refuted_vmdk_shortfoot are replayed on the implementation by
+`witness_checks` (never a violation: when a finding gets fixed the witness simply stops reproducing).
 """
 import os, sys, struct
 
 ID = 'C01_Vmdk'
 EXTRACT = 'Extract/C01_Vmdk_x.v'
+
+def _c01():
+    try:
+        from props import C01
+    except ImportError:
+        import C01
+    return C01
 
 def _runner():
     m = sys.modules.get('__main__')
@@ -63,7 +78,7 @@ def impl_verdict(data, sizes):
 
 # ------------------------------------------------------------------ targeted cases (beyond the plugin's generators)
 def targeted(rng, tier):
-    import C01
+    C01 = _c01()
     out = []
     def add(n, p, sizes, k, bg='z'):
         out.append({'op': 'insp', 'fmt': 'vmdk', 'n': n, 'bg': bg, 'p': p, 'sizes': sizes, 'k': 'spec:' + k})
@@ -108,16 +123,17 @@ def targeted(rng, tier):
 
 def extra_checks(rng, tier):
     """-> iterable of (name, case, message_or_None)"""
-    import C01
+    C01 = _c01()
     cases = [c for c in C01.gen_cases(rng, tier) if c.get('op') == 'insp' and c.get('fmt') == 'vmdk' and 'late' not in c]
     cases += targeted(rng, tier)
+    yield from witness_checks()
     datas = [C01.data_of(c) for c in cases]
     specs = spec_many(datas)
     for c, data, (sv, zt, zs) in zip(cases, datas, specs):
         if zt is None:
             yield ('vmdk_spec', c, 'spec driver failed: %r' % (sv,)); continue
         z = C01.zone(c)
-        if zt != (z == 'F1') or (zs and not zt) != (z == 'F3'):
+        if zt != (z == 'F1') or zs != (z == 'F3'):
             yield ('vmdk_zone', dict(c, fmt='vmdk-zone'), 'Coq zones (text=%s, shortfoot=%s) disagree with the plugin zone %r' % (zt, zs, z)); continue
         if zt or zs:
             yield ('vmdk_spec_inzone', c, None); continue
@@ -126,6 +142,22 @@ def extra_checks(rng, tier):
         if tuple(iv) != tuple(sv):
             msg = 'VMDK verdict (exn, match, complete, virtual_size, safety) of the implementation %r under sizes %r differs from vmdk_spec %r' % (iv, c['sizes'][:12], sv)
         yield ('vmdk_spec', c, msg)
+
+def spec_disagreements(rng, tier):
+    """only the failing triples of extra_checks (for correspondence-style wiring)"""
+    return [(n, c, m) for n, c, m in extra_checks(rng, tier) if m]
+
+def witness_checks():
+    """replays the Coq witnesses (coq/Proofs/C01_Vmdk_Witness.v: w_text, w_short) on the real inspector"""
+    C01 = _c01()
+    w_text = b'createtype="monolithicsparse"\x80'
+    w_short = C01.sparse_header(1, 2048, 1, 1, C01.GD_AT_END).ljust(1598, b'\0')
+    out = []
+    for name, data, cut in (('F1', w_text, 29), ('F3', w_short, 63)):
+        a = impl_verdict(data, [cut]); b = impl_verdict(data, [len(data)])
+        c = {'op': 'insp', 'fmt': 'vmdk', 'n': len(data), 'bg': 'z', 'p': [C01.P(0, data)], 'sizes': [cut], 'k': 'witness:' + name}
+        out.append(('vmdk_witness_%s_%s' % (name, 'reproduced' if a != b else 'not_reproduced'), c, None))
+    return out
 
 if __name__ == '__main__':
     # standalone: PYTHONPATH=/repo python tools/props/C01_vmdk_spec.py [quick|thorough]
